@@ -289,3 +289,40 @@ func fieldOwner(info *types.Info, id *ast.Ident) string {
 	}
 	return ""
 }
+
+// attachShape: package attachment (the other server named in the property's observe_at) has no goroutine
+// structure to model: one `go conn.run()` per accepted connection, no channels, one sync.Once latch used by the
+// connection's own goroutine - every
+// connection's state is touched by its own goroutine only.  The shape is re-counted on every run; if it
+// changes, the correspondence breaks and a model is due.
+func attachShape(dir string) (ngo, nchan, nsync int, err error) {
+	fset := token.NewFileSet()
+	ents, err := os.ReadDir(dir)
+	if err != nil {
+		return 0, 0, 0, err
+	}
+	for _, e := range ents {
+		n := e.Name()
+		if !strings.HasSuffix(n, ".go") || strings.HasSuffix(n, "_test.go") || n == "verif_hooks.go" {
+			continue
+		}
+		f, perr := parser.ParseFile(fset, filepath.Join(dir, n), nil, 0)
+		if perr != nil {
+			return 0, 0, 0, perr
+		}
+		ast.Inspect(f, func(m ast.Node) bool {
+			switch x := m.(type) {
+			case *ast.GoStmt:
+				ngo++
+			case *ast.ChanType:
+				nchan++
+			case *ast.SelectorExpr:
+				if id, ok := x.X.(*ast.Ident); ok && (id.Name == "sync" || id.Name == "atomic") {
+					nsync++
+				}
+			}
+			return true
+		})
+	}
+	return ngo, nchan, nsync, nil
+}
